@@ -135,7 +135,7 @@ for _i in range(3):
 # ------------------------------------------------------------------ (b) defaults are copied for every instance and call
 from vt import defaults_h  # noqa: E402
 
-ob('defaults', marks=['schema', 'function', 'forced'], budget=(60, 200), bounds=defaults_h.BOUNDS)(defaults_h.defaults)
+ob('defaults', marks=['schema', 'function', 'forced', 'instance-default'], budget=(60, 200), bounds=defaults_h.BOUNDS)(defaults_h.defaults)
 
 
 # ------------------------------------------------------------------ (c) no cross-call state
